@@ -315,6 +315,27 @@ pub fn run(ctx: &Ctx, rep: &mut Report) {
         check(rep, &b, "payload-single-byte");
     }
     check(rep, &Build::simple(1, 1, None, b"", DECODABLE, 0), "channel-empty");
+    // channel fields a receiver or shore station might plausibly write instead of the NMEA letter:
+    // ITU-R M.1084 designators of AIS 1 / AIS 2 (87B / 88B, 2087 / 2088), frequencies, names,
+    // lower case, and all two-character combinations of the usual designators
+    if ctx.mine(item) {
+        let named: [&[u8]; 26] = [
+            b"87B", b"88B", b"2087", b"2088", b"87", b"88", b"1087", b"1088", b"87A", b"88A", b"AIS1", b"AIS2", b"AIS 1", b"AIS 2", b"161.975", b"162.025", b"161975000", b"162025000",
+            b"a", b"b", b"C", b"D", b"AB", b"BA", b"12", b"21",
+        ];
+        for ch in named.iter() {
+            for (n, k, id) in [(1u8, 1u8, None), (2, 1, Some(1u8)), (2, 2, Some(1))] {
+                let b = Build::simple(n, k, id, ch, DECODABLE, 0);
+                check(rep, &b, "channel-named");
+            }
+        }
+        for a in b"AB12ab".iter() {
+            for c in b"AB12ab".iter() {
+                check(rep, &Build::simple(1, 1, None, &[*a, *c], DECODABLE, 0), "channel-pair");
+            }
+        }
+    }
+    item += 1;
     // payload lengths 1..=400, fill 0..=5 incl. "05", tag block, '$'
     for len in 1..=400usize {
         if !ctx.mine(item) {
